@@ -470,6 +470,37 @@ fn main() {
             }
             seqio_verif::seqmon::trace_case(idx);
             let mut rng = Rng::derive(&[seed, shard, idx, 70]);
+            if prop == "C07" && !ctx.miri && idx == 6 {
+                // once per shard: a per-record function whose record data are 16 KiB each, over batches whose
+                // record count goes down and up by less than a factor of two
+                let fastq = shard % 2 == 1;
+                let threads = 1 + (shard / 2 % 4) as u32;
+                let queue = 1 + (shard / 8) as usize;
+                rep.evaluations += 1;
+                let mut j = ctx.replay_json(idx);
+                j["scenario"] = json!({"api": if fastq { "parallel_fastq" } else { "parallel_fasta" }, "record_data_bytes": 16384, "threads": threads, "queue": queue});
+                match guarded(|| pipe::run_bigdata_records(fastq, threads, queue, shard)) {
+                    Err(Caught::Panic(m)) | Err(Caught::Budget(m)) => rep.violation(&panic_sig(&m), format!("the per-record function panicked: {}", m), j),
+                    Ok(Err(e)) => rep.violation("spurious-error", format!("error on a well-formed input: {}", e), j),
+                    Ok(Ok((n, got))) => {
+                        rep.count("runs_with_16k_record_data");
+                        let mut ids: Vec<usize> = got.iter().map(|g| g.0).collect();
+                        ids.sort();
+                        if ids != (0..n).collect::<Vec<usize>>() {
+                            let missing = (0..n).find(|i| ids.binary_search(i).is_err());
+                            rep.violation("lost-record", format!("{} records in the input, {} reached the consumer function (first missing: {:?})", n, ids.len(), missing), j.clone());
+                        }
+                        if got.iter().any(|g| !g.1) {
+                            rep.violation("foreign-result", "a record arrived with record data that were not computed for it".into(), j);
+                        }
+                    }
+                }
+                if only.is_some() {
+                    break;
+                }
+                idx += 1;
+                continue;
+            }
             if (prop == "C07" || prop == "C16") && idx % 40 == 10 && only.map_or(true, |o| o == idx) {
                 // the generic per-record function over a user-defined reader whose data sets have an
                 // iterator with a legal but inexact size_hint
